@@ -126,6 +126,7 @@ def run(model: RepoModel, rep, tier: str):
                        "definition-use chains) enter the current key into their memo before they call themselves", 5)
     check_mark_before_recursion(model, rep, "C13.R6", sorted(r for r in model.modules if r.startswith(("core/", "taint/")))
                                 + ["basics/type_hierarchy.py", "common_structs.py"])
+    _r7_bounded_evaluation(model, rep)
 
     # functions something in the pipeline can reach (by-name over-approximation: a function is reachable when a reachable
     # function mentions its name; roots: main.py, event registration, handler tables)
@@ -511,6 +512,53 @@ SELF_FEEDING_OK = {
 }
 
 
+def _r7_bounded_evaluation(model: RepoModel, rep):
+    """Constant expressions of the analysed program are folded with eval().  Time and memory of `**`, `<<` and sequence repetition
+    are not bounded by the size of the expression text, so every eval of program-derived text has to be preceded by a size check
+    that can refuse those operators."""
+    rep.rule("C13.R7", "constant folding is bounded: every eval() of an expression assembled from program constants is dominated by a check "
+                       "that inspects the expression's power, shift and multiplication nodes and can refuse (raise) before anything is computed", 1)
+    n = 0
+    for rel, mod in sorted(model.modules.items()):
+        for f in mod.all_funcs():
+            evals = [c for c in walk_no_nested(f.node) if isinstance(c, ast.Call) and isinstance(c.func, ast.Name) and c.func.id == "eval"]
+            if not evals:
+                continue
+            cfg = cfg_of(f.node)
+            for ev in evals:
+                n += 1
+                key = f"{rel}::{f.qualname}::`{norm(ev)[:60]}`::size-checked before it is evaluated"
+                evn = next((nd for nd in cfg.g.nodes if any(c is ev for c in cfg.calls_at(nd))), None)
+                if evn is None:
+                    rep.unknown("C13.R7", key, rel, ev.lineno, "eval call not located in the CFG")
+                    continue
+                ok = None
+                for nd in cfg.g.nodes:
+                    if nd == evn or not cfg.dominates(nd, evn):
+                        continue
+                    for c in cfg.calls_at(nd):
+                        callee = None
+                        if isinstance(c.func, ast.Name):
+                            callee = mod.functions.get(c.func.id)
+                        elif isinstance(c.func, ast.Attribute) and is_self_attr(c.func) and f.cls is not None:
+                            callee = model.find_method(f.cls, c.func.attr)
+                        if callee is None:
+                            continue
+                        txt = {x.attr for x in ast.walk(callee.node) if isinstance(x, ast.Attribute)} | {x.id for x in ast.walk(callee.node) if isinstance(x, ast.Name)}
+                        refuses = any(isinstance(x, ast.Raise) for x in ast.walk(callee.node))
+                        if {"Pow", "LShift", "Mult"} <= txt and refuses and any(norm(a) in {norm(b) for b in ev.args[:1]} for a in c.args[:1]):
+                            ok = callee
+                if ok is not None:
+                    rep.holds("C13.R7", key, rel, ev.lineno, f"dominated by {ok.qualname}(<same expression>), which inspects Pow / LShift / Mult nodes and raises")
+                else:
+                    rep.violation("C13.R7", key, rel, ev.lineno,
+                                  f"{f.qualname} evaluates `{norm(ev.args[0]) if ev.args else '?'}` with eval() without a preceding check of the sizes involved: "
+                                  f"a program containing `x = 9 ** 9 ** 9` (folded in two steps: 9 ** 387420489) or `1 << 10 ** 12` keeps the "
+                                  f"analysis busy for ever or exhausts memory")
+    if not n:
+        raise AnalysisError("no eval() call found: the constant folder this rule is about has vanished or moved")
+
+
 def _r5_self_feeding_worklists(model: RepoModel, rep):
     n = 0
     for rel, mod in sorted(model.modules.items()):
@@ -626,6 +674,7 @@ MUTANTS = [
      "add_main_func::while"),
     ("taint-inclusion-no-visited", "taint/taint_analysis.py", _t("                if next_state.node_type == SFG_NODE_KIND.STATE and next_state not in state_visited:",
                                                                  "                if next_state.node_type == SFG_NODE_KIND.STATE:"), "get_state_with_inclusion_tag"),
+    ("eval-without-size-check", "util/util.py", _t("    check_eval_result_size(content)\n    return eval(content, {}, {})", "    return eval(content, {}, {})"), "size-checked before it is evaluated"),
     ("round-bound-huge", "config/config.py",
      lambda src: __import__("re").sub(r"(MAX_ANALYSIS_ROUND_FOR_PRELIM_ANALYSIS\s*=\s*)\d+", r"\g<1>10**9", src, count=1), "MAX_ANALYSIS_ROUND_FOR_PRELIM_ANALYSIS"),
 ]
